@@ -1006,6 +1006,13 @@ class _Tree(_ArithmeticMixin, _Base):
         if not self._data:
             return ()
 
+        # An exclusive omitted bound drops only the overall smallest
+        # (largest) key, not the first (last) key of every leaf.
+        if excludemin and (min is _marker or min is None):
+            min = self.minKey()
+        if excludemax and (max is _marker or max is None):
+            max = self.maxKey()
+
         if min is not _marker and min is not None:
             min = self._to_key(min)
             bucket = self._findbucket(min)
